@@ -2,8 +2,8 @@ CONSTANTS
   ARGV = 2
   Bug <- NoBug
   Alphabet <- Sigma7
-  MaxLen = 6
-  MaxChunk = 6
+  MaxLen = 7
+  MaxChunk = 7
   Streams <- AllStreams
 INIT RInit
 NEXT RNext
